@@ -791,6 +791,7 @@ def setup():
     with Lock("coq"):
         ensure_makefile()
     sh([sys.executable, os.path.join(ROOT, "lib", "gen_uidops.py")])
+    sh([sys.executable, os.path.join(ROOT, "lib", "gen_flowkey.py")])
     # clean full build of the development
     sh(["make", "clean"], cwd=COQ)
     for f in glob.glob(os.path.join(COQ, "**", "*.vo*"), recursive=True) + glob.glob(os.path.join(COQ, "**", "*.glob"), recursive=True):
